@@ -35,6 +35,7 @@ CLAIMED = {
     'C08': ('6/C08', "Grammars, lexicon and root labels are bags; TLC checks per-LHS totals and flow conservation (rules rewriting s + lexicon count of s = count-weighted RHS occurrences + root occurrences) for the extracted grammar and every binarized grammar (10 modes) of treebanks in which rules repeat under different parents.", 'TLC/SANY/CommunityModules (Bags, Json); mechanical dump of the nested grammar/lexicon dicts; small-scope hypothesis beyond the bounds', 'TLA+ spec (GrammarProps.tla: Flow, LhsTotals) + TLC trace validation of dumped grammar state'),
     'C09': ('6/C09', "PMCFG, RCG, lexicon and LoPar files are decoded by TLA+ operators over lexical records (GrammarFiles.tla: which line is what, references resolving, shared sequence ids, arity suffixes, start symbols, open-class counts); for grammars extracted from enumerated and random treebanks, raw and binarized in every mode, the real writers produce files in a temp directory, the tool's RCG reader re-reads them, and `treetools grammar` is run as a subprocess on tree and RCG input; TLC decides pmcfg.decodes, rcg.decodes, rcg.reader_roundtrip, lex.counts, lex_in_grammar, lopar.gram/start/oc/OC, lopar.refuses_lcfrs, cli_grammar_input_not_empty.", 'TLC/SANY/CommunityModules; the harness splits lines into tokens (whitespace, ":" pairs, "[n]" variables, "(" of predicates); vocabularies disjoint from nonterminals; labels without trailing digits/parentheses (as the property states)', 'TLA+ decoders (GrammarFiles.tla) + TLC trace validation of written files; grammars from TLC-enumerated trees'),
     'C02': ('6/C02', "The five output formats are specified as encoding relations with independent decoders over lexical records (Formats.tla: export line classes, numbering and parent resolution; the bracket group grammar with its denotation; TIGER-XML id-ref linking; Writers.tla: clauses and reference encoders). TLC checks on every tree x absent-field profile x (format, option set) within the bounds that reference encoder and decoder are consistent, then every job writes a freshly built real tree and TLC decides sid, export.wellformed/order/numbering, decodes, brackets.group/parens/one_line/refuses_exactly_disco, disco.sentence, terminals.exact, xml.wellformed/links, defaults_not_failure on the split output.", 'TLC/SANY/CommunityModules; harness splitting (whitespace, parentheses, tab, last "/" of word/TAG, xml.etree); BRACKETS table exported from the code; character alphabets are sampled (pools), not enumerated', 'TLA+ decoders/encoders (Formats.tla, Writers.tla) + TLC model checking + TLC trace validation of written text'),
+    'C01': ('6/C01', "bracket_lexer and the 7-state reader automaton are TLA+ state machines with one action per character class / lexer token (BracketReader.tla), next to a declarative grammar of a well-formed bracket group with its denotation; TLC checks on EVERY lexer-token class sequence up to length 6/9 that automaton and grammar agree (same trees, error exactly for an ill-formed or truncated group) and must find the named deviation. Each sequence is rendered with seeded whitespace and read by the real reader. Corpus level: TLC enumerates trees x (format, reader option set); corpora of 1-3 trees are rendered (export v3/v4 with headers/comments/secondary edges, brackets with varied whitespace and empty root, discobrackets, TIGER-XML with shuffled attribute/node order, latin-1/utf-8, gzip), the rendering is decoded by the TLA+ decoders, and every Yield/Error/Eof event of the real reader is validated: count, sid, wf.*, dominance, tokens, labels, fields, quiet, illformed_rejected.*.", 'TLC/SANY/CommunityModules; harness renderers (joins) whose output must decode under the TLA+ decoders; BRACKETS table exported from the code; character alphabets and layouts are sampled', 'TLA+ automaton + declarative grammar (BracketReader.tla), decoders (Formats.tla), Readers.tla + TLC model checking + TLC trace validation of reader events'),
 }
 
 NOT_YET = 'check not built yet (work in progress, see DESIGN.md section 12)'
